@@ -1,6 +1,7 @@
 import OW.Driver.Proto
 import OW.Driver.Date
 import OW.Driver.Kernel
+import OW.Driver.Fn
 namespace OW.Driver
 open OW.Proto
 
@@ -9,6 +10,8 @@ def dispatch (fam : String) (args : Toks) : String :=
   match fam with
   | "DATE" => Date.handle args
   | "K" => Kernel.handle args
+  | "FR" => Fn.handleFR args
+  | "PW" => Fn.handlePW args
   | _ => "bad-family"
 
 def handleLine (line : String) : String :=
